@@ -1178,7 +1178,9 @@ fn directed_perturb(rng: &mut Rng, round: usize) -> (Pat, Vec<Vec<u8>>, &'static
         while buf.len() + inst.len() + 1 <= 260 {
             if k == genuine_at { buf.extend_from_slice(&pat_instance(&p, rng)); }
             else { match it.next() { Some(v) => buf.extend_from_slice(&v), None => break } }
-            buf.push(*rng.pick(b" .\n\x00"));
+            // neighbours on both sides of the fullword boundary: delimiters, the underscore (a delimiter for
+            // fullword, a word character for \b), letters and digits
+            buf.push(*rng.pick(b" .\n\x00__a0Z"));
             k += 1;
         }
         if !buf.is_empty() { bufs.push(buf); }
